@@ -135,11 +135,7 @@ func VJSONRound(g VJSON) {
 		v.Assert(len(a) == len(b), "C11:drain-length")
 		if len(a) == len(b) {
 			for i := range a {
-				if g.Multiset {
-					v.Assert(vl.Equiv(a[i], b[i]), "C11:drain-sequence")
-				} else {
-					v.Assert(a[i] == b[i], "C11:drain-sequence")
-				}
+				v.Assert(a[i] == b[i], "C11:drain-sequence") // "the same subsequent Pop/Dequeue sequence": also among ties
 			}
 		}
 	}
